@@ -789,6 +789,10 @@ class Layer(BaseObject):
         glyph._dataOnDiskTimeStamp = None
         if self._unicodeData is not None:
             self._unicodeData.removeGlyphData(oldName, glyph.unicodes)
+            if newName in self:
+                # a glyph stored under the new name is being replaced:
+                # its code points leave the map, as they do in newGlyph
+                self._unicodeData.removeGlyphData(newName, self[newName].unicodes)
         self._insertGlyph(glyph, beginObservations=False)
         self.postNotification("Layer.GlyphNameChanged", data=dict(oldValue=oldName, newValue=newName))
 
